@@ -31,6 +31,14 @@ CLAIMS.update({
  "C11": dict(text="Decides per interpreter version: residual flag bits are tested on every returning path; a typestate walk for each of the 18 flag names ends consumed or rejected, never surviving or dropped untested; consumed flags are re-produced; every header field is read; line-mapping leftovers and unusable argument counts are rejected. Numeric values of the flag enumeration (taken from the running interpreter) are not decided.",
    technique="path-sensitive typestate walk over the structured CFG, guided by points-to facts; stdlib flag tables parsed statically", ref="5 C11"),
 })
+CLAIMS.update({
+ "C04": dict(text="Decides the co_varnames layout contract on both sides (symbolic evaluation of the decoder's slicing with linear forms over the argument counts on the four VARARGS x VARKEYWORDS paths; concatenation order of the encoder's prefix and seeds), the signature order and kinds of Args.parameters, count/flag derivation, the docstring rule and the function-kind inference by finite evaluation, and len(args). A round trip cannot see a layout error shared by both sides; comparison with inspect on real functions is not executed.",
+   technique="symbolic evaluation with linear forms + concatenation-order extraction + finite-domain evaluation (ast)", ref="5 C04"),
+ "C07": dict(text="Decides agreement of encoder, decoder and JSON_SCHEMA: tag key sets, string enumerations, operand-class unions and discriminators; per field, every emittable JSON shape (armed where decoder provenance shows arbitrary values) is accepted by the schema node and converted back; strictness guards dominate raw numeric returns; only dicts/lists are built; default hiding is injective; decimal conversions of unbounded ints are reported (two known findings). Behaviour of JSON libraries and to_code() identity are not decided.",
+   technique="three-way structural comparison (ast of encoder/decoder, schema literal, type graph) + path-sensitive guard walk + provenance from abstract interpretation", ref="5 C07"),
+ "C13": dict(text="Decides that block boundaries are a function of {0} U {decoded jump targets} only: initial value, sole writer, executed for every Jump operand; a block opens iff the instruction's first offset is in the sorted target list; unconditional append (no empty block, order-preserving partition); jump targets rewritten through the same sorted list.",
+   technique="ast rule checking over the decoder's two loops with points-to facts", ref="5 C13"),
+})
 NA = {}
 props = [json.loads(l) for l in open(os.path.join(HERE, "properties.jsonl"))]
 checks, na = [], []
